@@ -158,6 +158,109 @@ def LastOK (cfg : Cfg) (agg : List ACert) : Prop :=
 theorem St.closed_cases (s : St) (h : s.isOpen = false) : s = .settled ∨ s = .inError := by
   cases s <;> simp [St.isOpen] at h ⊢
 
+/-- the first block a flow uses, given the node's last record -/
+def FromOK (cfg : Cfg) (last : Option Row) (f : Nat) : Prop :=
+  match last with
+  | none => f = cfg.start + 1
+  | some r => if r.status = .inError then f = r.from_ else f = r.to_ + 1
+
+/-- **height, previous exit root and first block are what the chain requires**, whichever flow computed the block range -/
+theorem position_spec (cfg : Cfg) (loc : List Row) (agg : List ACert) (hs : SyncUp loc agg) (hl : LastOK cfg agg)
+    (hfb : ∀ r x q, lastRow loc = some r → agg.getLast? = some x → Matches r x →
+      rowAt loc (r.height - 1) = some q → q.status = .settled → r.height ≠ 0 → q.new = x.prev)
+    (hh pv f : Nat) (hn : nextHeightPrev loc (lastRow loc) = some (hh, pv)) (hf : FromOK cfg (lastRow loc) f) :
+    (hh, pv, f) = expect cfg agg ∧ (∀ r, lastRow loc = some r → r.status.isOpen = false) := by
+  constructor
+  · unfold SyncUp at hs
+    unfold FromOK at hf
+    cases hlast : lastRow loc with
+    | none =>
+      rw [hlast] at hs hn hf
+      cases hg : agg.getLast? with
+      | some x => rw [hg] at hs; exact absurd hs (by simp)
+      | none =>
+        have : agg = [] := by simpa using hg
+        subst this
+        simp only [nextHeightPrev, Option.some.injEq, Prod.mk.injEq] at hn
+        simp only at hf
+        unfold expect lastSettled
+        simp only [List.filter_nil, List.getLast?_nil]
+        rw [hf, ← hn.1, ← hn.2]
+    | some r =>
+      rw [hlast] at hs hn hf
+      simp only at hf
+      cases hg : agg.getLast? with
+      | none => rw [hg] at hs; exact absurd hs (by simp)
+      | some x =>
+        rw [hg] at hs
+        have hm : Matches r x := hs
+        obtain ⟨pre, hpre⟩ : ∃ pre, agg = pre ++ [x] := by
+          have := List.getLast?_eq_some_iff.mp hg
+          obtain ⟨ys, hys⟩ := this
+          exact ⟨ys, hys⟩
+        have hx := hl pre x hpre
+        simp only [nextHeightPrev] at hn
+        by_cases hopen : r.status.isOpen = true
+        · rw [if_pos hopen] at hn; cases hn
+        rw [if_neg hopen] at hn
+        have hclosed : r.status.isOpen = false := by simpa using hopen
+        have hst : r.status = x.status := by
+          rcases hm.status with e | e
+          · exact e
+          · rw [hclosed] at e; cases e
+        rcases St.closed_cases _ hclosed with hset | herr
+        · -- last certificate settled: next height, its new exit root, the block after its last
+          rw [if_pos hset] at hn
+          simp only [Option.some.injEq, Prod.mk.injEq] at hn
+          rw [if_neg (by rw [hset]; simp)] at hf
+          rw [hpre, expect_snoc_settled cfg pre x (by rw [← hst]; exact hset)]
+          rw [hf, ← hn.1, ← hn.2, hm.height, hm.new, hm.to_]
+        · -- last certificate in error: same height, same previous exit root, same first block
+          have hne : r.status ≠ .settled := by rw [herr]; simp
+          rw [if_neg hne] at hn
+          rw [if_pos herr] at hf
+          have hxs : x.status ≠ .settled := by rw [← hst]; exact hne
+          have hprev : hh = r.height ∧ pv = x.prev := by
+            cases hp : r.prev with
+            | some p =>
+              rw [hp] at hn
+              simp only [Option.some.injEq, Prod.mk.injEq] at hn
+              rcases hm.prev with e | e
+              · rw [hp] at e; simp only [Option.some.injEq] at e
+                exact ⟨hn.1.symm, by rw [← hn.2, e]⟩
+              · rw [hp] at e; cases e
+            | none =>
+              rw [hp] at hn
+              simp only at hn
+              by_cases h0 : r.height = 0
+              · rw [if_pos h0] at hn
+                simp only [Option.some.injEq, Prod.mk.injEq] at hn
+                have hx0 : x.height = 0 := by rw [← hm.height]; exact h0
+                have : x.prev = 0 := by
+                  unfold expect at hx
+                  cases hls : lastSettled pre with
+                  | none => rw [hls] at hx; simp only [Prod.mk.injEq] at hx; exact hx.2.1
+                  | some p0 => rw [hls] at hx; simp only [Prod.mk.injEq] at hx; omega
+                exact ⟨by rw [← hn.1, h0], by rw [← hn.2, this]⟩
+              · rw [if_neg h0] at hn
+                cases hq : rowAt loc (r.height - 1) with
+                | none => rw [hq] at hn; cases hn
+                | some q0 =>
+                  rw [hq] at hn
+                  simp only at hn
+                  by_cases hqs : q0.status = .settled
+                  · rw [if_pos hqs] at hn
+                    simp only [Option.some.injEq, Prod.mk.injEq] at hn
+                    exact ⟨hn.1.symm, by rw [← hn.2]; exact hfb r x q0 hlast hg hm hq hqs h0⟩
+                  · rw [if_neg hqs] at hn; cases hn
+          rw [hpre, expect_snoc_not cfg pre x hxs, ← hx, hf, hprev.1, hprev.2, hm.height, hm.from_]
+  · intro r hr
+    rw [hr] at hn
+    simp only [nextHeightPrev] at hn
+    by_cases hopen : r.status.isOpen = true
+    · rw [if_pos hopen] at hn; cases hn
+    · simpa using hopen
+
 /-- **what the node builds is what the chain requires** (one step; the induction over histories is in
     `Properties/C02`). -/
 theorem build_spec (size : Params → Nat) (cfg : Cfg) (l2 : List L2Blk) (hw : L2WF l2) (loc : List Row)
@@ -217,96 +320,29 @@ theorem build_spec (size : Params → Nat) (cfg : Cfg) (l2 : List L2Blk) (hw : L
     simp only
     refine ⟨?_, by rw [hto]; omega, by rw [hto]; exact htb, by rw [← htb]; exact hq2,
       by rw [hto, qfrom]; exact qbr, by rw [hto, qfrom]; exact qcl, trivial, trivial, ?_⟩
-    · -- the chain position
-      unfold SyncUp at hs
+    · -- the chain position: the PP flow's first block is the one `position_spec` expects
+      refine (position_spec cfg loc agg hs hl hfb hh pv q.from_ hn ?_).1
+      unfold FromOK
       cases hlast : lastRow loc with
       | none =>
-        rw [hlast] at hs hlr hn
-        cases hg : agg.getLast? with
-        | some x => rw [hg] at hs; exact absurd hs (by simp)
-        | none =>
-          have : agg = [] := by simpa using hg
-          subst this
-          simp only [lastSentBlockAndRetry, Prod.mk.injEq] at hlr
-          simp only [nextHeightPrev, Option.some.injEq, Prod.mk.injEq] at hn
-          unfold expect lastSettled
-          simp only [List.filter_nil, List.getLast?_nil]
-          rw [qfrom, ← hlr.1, ← hn.1, ← hn.2]
+        rw [hlast] at hlr
+        simp only [lastSentBlockAndRetry, Prod.mk.injEq] at hlr
+        simp only; rw [qfrom, ← hlr.1]
       | some r =>
-        rw [hlast] at hs hlr hn
-        cases hg : agg.getLast? with
-        | none => rw [hg] at hs; exact absurd hs (by simp)
-        | some x =>
-          rw [hg] at hs
-          have hm : Matches r x := hs
-          obtain ⟨pre, hpre⟩ : ∃ pre, agg = pre ++ [x] := by
-            have := List.getLast?_eq_some_iff.mp hg
-            obtain ⟨ys, hys⟩ := this
-            exact ⟨ys, hys⟩
-          have hx := hl pre x hpre
-          simp only [nextHeightPrev] at hn
-          by_cases hopen : r.status.isOpen = true
-          · rw [if_pos hopen] at hn; cases hn
-          rw [if_neg hopen] at hn
-          have hclosed : r.status.isOpen = false := by simpa using hopen
-          have hst : r.status = x.status := by
-            rcases hm.status with e | e
-            · exact e
-            · rw [hclosed] at e; cases e
-          rcases St.closed_cases _ hclosed with hset | herr
-          · -- last certificate settled: next height, its new exit root, the block after its last
-            rw [if_pos hset] at hn
-            simp only [Option.some.injEq, Prod.mk.injEq] at hn
-            simp only [lastSentBlockAndRetry, hset] at hlr
-            simp only [reduceCtorEq, if_false, Prod.mk.injEq] at hlr
-            rw [hpre, expect_snoc_settled cfg pre x (by rw [← hst]; exact hset)]
-            rw [qfrom, ← hlr.1, ← hn.1, ← hn.2, hm.height, hm.new, hm.to_]
-          · -- last certificate in error: same height, same previous exit root, same first block
-            have hne : r.status ≠ .settled := by rw [herr]; simp
-            rw [if_neg hne] at hn
-            simp only [lastSentBlockAndRetry, herr, if_true, Prod.mk.injEq] at hlr
-            have hr0 : retry0 > 0 := by omega
-            have hqr : q.retry = true := by rw [qretry, hlast]; simp [hr0]
-            rw [hqr, hlast] at hretry
-            simp only [Bool.true_and, Option.map_some, ne_eq, Option.some.injEq, decide_not,
-              Bool.not_eq_true', decide_eq_false_iff_not, Decidable.not_not] at hretry
-            have hxs : x.status ≠ .settled := by rw [← hst]; exact hne
-            -- the previous exit root the node uses is the last certificate's
-            have hprev : hh = r.height ∧ pv = x.prev := by
-              cases hp : r.prev with
-              | some p =>
-                rw [hp] at hn
-                simp only [Option.some.injEq, Prod.mk.injEq] at hn
-                rcases hm.prev with e | e
-                · rw [hp] at e; simp only [Option.some.injEq] at e
-                  exact ⟨hn.1.symm, by rw [← hn.2, e]⟩
-                · rw [hp] at e; cases e
-              | none =>
-                rw [hp] at hn
-                simp only at hn
-                by_cases h0 : r.height = 0
-                · rw [if_pos h0] at hn
-                  simp only [Option.some.injEq, Prod.mk.injEq] at hn
-                  -- height 0: there is no settled certificate before it, its previous exit root is the empty tree's
-                  have hx0 : x.height = 0 := by rw [← hm.height]; exact h0
-                  have : x.prev = 0 := by
-                    unfold expect at hx
-                    cases hls : lastSettled pre with
-                    | none => rw [hls] at hx; simp only [Prod.mk.injEq] at hx; exact hx.2.1
-                    | some p0 => rw [hls] at hx; simp only [Prod.mk.injEq] at hx; omega
-                  exact ⟨by rw [← hn.1, h0], by rw [← hn.2, this]⟩
-                · rw [if_neg h0] at hn
-                  cases hq : rowAt loc (r.height - 1) with
-                  | none => rw [hq] at hn; cases hn
-                  | some q0 =>
-                    rw [hq] at hn
-                    simp only at hn
-                    by_cases hqs : q0.status = .settled
-                    · rw [if_pos hqs] at hn
-                      simp only [Option.some.injEq, Prod.mk.injEq] at hn
-                      exact ⟨hn.1.symm, by rw [← hn.2]; exact hfb r x q0 hlast hg hm hq hqs h0⟩
-                    · rw [if_neg hqs] at hn; cases hn
-            rw [hpre, expect_snoc_not cfg pre x hxs, ← hx, hretry, hprev.1, hprev.2, hm.height, hm.from_]
+        rw [hlast] at hlr
+        simp only
+        by_cases herr : r.status = .inError
+        · rw [if_pos herr]
+          simp only [lastSentBlockAndRetry, herr, if_true, Prod.mk.injEq] at hlr
+          have hr0 : retry0 > 0 := by omega
+          have hqr : q.retry = true := by rw [qretry, hlast]; simp [hr0]
+          rw [hqr, hlast] at hretry
+          simp only [Bool.true_and, Option.map_some, ne_eq, Option.some.injEq, decide_not,
+            Bool.not_eq_true', decide_eq_false_iff_not, Decidable.not_not] at hretry
+          exact hretry
+        · rw [if_neg herr]
+          simp only [lastSentBlockAndRetry, herr, if_false, Prod.mk.injEq] at hlr
+          rw [qfrom, ← hlr.1]
     · intro r hr
       rw [hr] at hn
       simp only [nextHeightPrev] at hn
@@ -357,9 +393,10 @@ structure Inv (s : Sys) : Prop where
   startOK : ∀ b ∈ s.l2, b.num ≤ s.cfg.start → b.bridges = []
   deposits : (allBridges s.l2).map (·.id) = List.range (allBridges s.l2).length
   counts : ∀ c ∈ s.agg, CountOK s.l2 c
+  fromGe : ∀ c ∈ s.agg, s.cfg.start + 1 ≤ c.from_
 
 theorem init_inv (cfg : Cfg) : Inv { cfg := cfg } := by
-  refine ⟨?_, ?_, ?_, ?_, ?_, ?_, ?_, ?_, ?_, ?_, ?_, ?_, ?_⟩
+  refine ⟨?_, ?_, ?_, ?_, ?_, ?_, ?_, ?_, ?_, ?_, ?_, ?_, ?_, fun c hc => by simp at hc⟩
   rotate_right 3
   · intro b hb; simp at hb
   · simp [allBridges]
@@ -589,11 +626,11 @@ theorem poll_map (s : Sys) : ∃ f, StatusOnly s.agg f ∧ (poll s).1 = { s with
 
 theorem Inv.of_eq {s s' : Sys} (hi : Inv s) (h1 : s'.cfg = s.cfg) (h2 : s'.l2 = s.l2) (h3 : s'.agg = s.agg)
     (h4 : s'.loc = s.loc) (h5 : s'.up = s.up) : Inv s' := by
-  obtain ⟨a2, a3, a4, a5, a6, a7, a8, a9, a10, a11, a12, a13, a14⟩ := hi
+  obtain ⟨a2, a3, a4, a5, a6, a7, a8, a9, a10, a11, a12, a13, a14, a15⟩ := hi
   cases s; cases s'
   simp only at h1 h2 h3 h4 h5
   subst h1 h2 h3 h4 h5
-  exact ⟨a2, a3, a4, a5, a6, a7, a8, a9, a10, a11, a12, a13, a14⟩
+  exact ⟨a2, a3, a4, a5, a6, a7, a8, a9, a10, a11, a12, a13, a14, a15⟩
 
 theorem statusOnly_fields (agg : List ACert) (f : Row → Row) (hf : StatusOnly agg f) (r : Row) :
     (f r).id = r.id ∧ (f r).height = r.height := by
@@ -614,7 +651,7 @@ theorem lastRow_map (loc : List Row) (f : Row → Row) : lastRow (loc.map f) = (
 /-- refreshing statuses keeps the invariant -/
 theorem inv_map_loc (s : Sys) (hi : Inv s) (f : Row → Row) (hf : StatusOnly s.agg f) :
     Inv { s with loc := s.loc.map f } := by
-  refine ⟨hi.l2wf, hi.ids, hi.closedPrefix, hi.chain, ?_, ?_, ?_, ?_, hi.l2sorted, hi.content, hi.startOK, hi.deposits, hi.counts⟩
+  refine ⟨hi.l2wf, hi.ids, hi.closedPrefix, hi.chain, ?_, ?_, ?_, ?_, hi.l2sorted, hi.content, hi.startOK, hi.deposits, hi.counts, hi.fromGe⟩
   · simp only
     rw [List.pairwise_map]
     refine hi.sorted.imp ?_
@@ -943,10 +980,198 @@ theorem inv_fallback (s : Sys) (hi : Inv s) : ∀ (r : Row) (x : ACert) (q : Row
     have := settled_unique s.cfg s.agg hi.chain p cq hpmem hcqmem hps hcqs hh
     rw [hmq.new, ← this, hx.2.1]
 
-theorem send_inv (size : Params → Nat) (s : Sys) (hi : Inv s) (hup : s.up = true) (crash : Bool) :
-    Inv (send size s crash).1 := by
-  unfold send
-  cases hb : build size s.cfg s.l2 s.loc with
+/-- what a built certificate satisfies (the conclusion of `build_spec`, for either flow) -/
+def BuildOK (cfg : Cfg) (l2 : List L2Blk) (loc : List Row) (agg : List ACert) (c : ACert) (tb : Nat) : Prop :=
+  (c.height, c.prev, c.from_) = expect cfg agg ∧ c.from_ ≤ c.to_ ∧ c.to_ = tb ∧ tb ≤ lastProcessed l2 ∧
+  c.bridges = bridgesIn l2 c.from_ c.to_ ∧ c.claims = claimsIn l2 c.from_ c.to_ ∧
+  c.new = newLER c.prev c.bridges ∧ c.status = .pending ∧
+  (∀ r, lastRow loc = some r → r.status.isOpen = false)
+
+/-! #### the aggchain-prover flow builds what the chain requires, too -/
+
+theorem finishFEP_spec (cfg : Cfg) (l2 : List L2Blk) (hw : L2WF l2) (loc : List Row) (agg : List ACert)
+    (hs : SyncUp loc agg) (hl : LastOK cfg agg)
+    (hfb : ∀ r x q, lastRow loc = some r → agg.getLast? = some x → Matches r x →
+      rowAt loc (r.height - 1) = some q → q.status = .settled → r.height ≠ 0 → q.new = x.prev)
+    (p : Params) (retry : Nat) (hfrom : FromOK cfg (lastRow loc) p.from_) (hft : p.from_ ≤ p.to_)
+    (hto : p.to_ ≤ lastProcessed l2) (hbr : p.bridges = bridgesIn l2 p.from_ p.to_)
+    (hcl : p.claims = claimsIn l2 p.from_ p.to_) (c : ACert) (r' tb : Nat)
+    (h : finishFEP loc (lastRow loc) p retry = .cert c r' tb) : BuildOK cfg l2 loc agg c tb := by
+  unfold finishFEP at h
+  cases hn : nextHeightPrev loc (lastRow loc) with
+  | none => rw [hn] at h; cases h
+  | some hp =>
+    obtain ⟨hh, pv⟩ := hp
+    rw [hn] at h
+    simp only [Build.cert.injEq] at h
+    obtain ⟨hc, _, htb⟩ := h
+    subst hc
+    have hlp := lastProcessed_lt l2 hw
+    have hto' : p.from_ + (p.to_ - p.from_) % 2 ^ 32 = p.to_ := by
+      rw [Nat.mod_eq_of_lt (by omega)]; omega
+    obtain ⟨h1, h2⟩ := position_spec cfg loc agg hs hl hfb hh pv p.from_ hn hfrom
+    unfold BuildOK
+    simp only
+    refine ⟨h1, by rw [hto']; exact hft, by rw [hto']; exact htb, by rw [← htb]; exact hto,
+      by rw [hto']; exact hbr, by rw [hto']; exact hcl, trivial, trivial, h2⟩
+
+theorem proveAndBuild_spec (cfg : Cfg) (l2 : List L2Blk) (hw : L2WF l2) (loc : List Row) (agg : List ACert)
+    (hs : SyncUp loc agg) (hl : LastOK cfg agg)
+    (hfb : ∀ r x q, lastRow loc = some r → agg.getLast? = some x → Matches r x →
+      rowAt loc (r.height - 1) = some q → q.status = .settled → r.height ≠ 0 → q.new = x.prev)
+    (p : Params) (retry : Nat) (prover : Prover) (hfrom : FromOK cfg (lastRow loc) p.from_) (hft : p.from_ ≤ p.to_)
+    (hto : p.to_ ≤ lastProcessed l2) (hbr : p.bridges = bridgesIn l2 p.from_ p.to_)
+    (hcl : p.claims = claimsIn l2 p.from_ p.to_) (c : ACert) (r' tb : Nat)
+    (h : (proveAndBuild loc (lastRow loc) p retry prover).1 = .cert c r' tb) : BuildOK cfg l2 loc agg c tb := by
+  unfold proveAndBuild at h
+  split at h
+  · cases h
+  cases prover with
+  | fail => cases h
+  | notYet => cases h
+  | ok cut =>
+    simp only at h
+    have hwf : WFp p := ⟨hft, by rw [hbr]; exact bridgesIn_inRange l2 hw _ _, by rw [hcl]; exact claimsIn_inRange l2 hw _ _⟩
+    by_cases he : p.to_ - cut = p.to_
+    · rw [if_pos he] at h
+      simp only at h
+      exact finishFEP_spec cfg l2 hw loc agg hs hl hfb p retry hfrom hft hto hbr hcl c r' tb h
+    · rw [if_neg he] at h
+      cases hr : range p p.from_ (p.to_ - cut) with
+      | none => rw [hr] at h; cases h
+      | some q =>
+        rw [hr] at h
+        simp only at h
+        obtain ⟨q1, q2, q3, q4, _, _, _, q8, q9⟩ := C17_range_exact p q p.from_ (p.to_ - cut) hwf hr
+        have hle : p.to_ - cut ≤ p.to_ := Nat.sub_le _ _
+        refine finishFEP_spec cfg l2 hw loc agg hs hl hfb q retry (by rw [q1]; exact hfrom) (by rw [q1, q2]; exact q9)
+          (by rw [q2]; omega) ?_ ?_ c r' tb h
+        · rw [q3, q1, q2, hbr]; exact bridgesIn_narrow l2 hw _ _ _ hle
+        · rw [q4, q1, q2, hcl]; exact claimsIn_narrow l2 hw _ _ _ hle
+
+/-- what the invariant knows about the certificate the node's last record describes -/
+def LastFacts (cfg : Cfg) (l2 : List L2Blk) (loc : List Row) (agg : List ACert) : Prop :=
+  ∀ r x, lastRow loc = some r → agg.getLast? = some x → Matches r x →
+    x.from_ ≤ x.to_ ∧ x.to_ ≤ lastProcessed l2 ∧ cfg.start + 1 ≤ x.from_
+
+theorem buildFEP_spec (size : Params → Nat) (cfg : Cfg) (l2 : List L2Blk) (hw : L2WF l2) (loc : List Row)
+    (agg : List ACert) (hs : SyncUp loc agg) (hl : LastOK cfg agg)
+    (hfb : ∀ r x q, lastRow loc = some r → agg.getLast? = some x → Matches r x →
+      rowAt loc (r.height - 1) = some q → q.status = .settled → r.height ≠ 0 → q.new = x.prev)
+    (hlf : LastFacts cfg l2 loc agg) (prover : Prover) (c : ACert) (r' tb : Nat)
+    (h : (buildFEP size cfg l2 loc prover).1 = .cert c r' tb) : BuildOK cfg l2 loc agg c tb := by
+  -- the certificate behind the last record, if any
+  have hlastx : ∀ r, lastRow loc = some r → ∃ x, agg.getLast? = some x ∧ Matches r x := by
+    intro r hr
+    unfold SyncUp at hs
+    rw [hr] at hs
+    cases hg : agg.getLast? with
+    | none => rw [hg] at hs; exact absurd hs (by simp)
+    | some x => rw [hg] at hs; exact ⟨x, rfl, hs⟩
+  unfold buildFEP at h
+  simp only at h
+  cases hlast : lastRow loc with
+  | some r =>
+    obtain ⟨x, hg, hm⟩ := hlastx r hlast
+    obtain ⟨f1, f2, f3⟩ := hlf r x hlast hg hm
+    rw [hlast] at h
+    simp only at h
+    by_cases herr : r.status = .inError
+    · -- the last certificate is in error: its block range again
+      rw [if_pos herr] at h
+      simp only at h
+      have hfrom : FromOK cfg (lastRow loc) r.from_ := by unfold FromOK; rw [hlast]; simp [herr]
+      have hft : r.from_ ≤ r.to_ := by rw [hm.from_, hm.to_]; exact f1
+      have hto : r.to_ ≤ lastProcessed l2 := by rw [hm.to_]; exact f2
+      by_cases hp : r.hasProof = true
+      · rw [if_pos hp] at h
+        simp only at h
+        rw [← hlast] at h
+        exact finishFEP_spec cfg l2 hw loc agg hs hl hfb _ _ hfrom hft hto rfl rfl c r' tb h
+      · rw [if_neg hp] at h
+        rw [← hlast] at h
+        exact proveAndBuild_spec cfg l2 hw loc agg hs hl hfb _ _ prover hfrom hft hto rfl rfl c r' tb h
+    · rw [if_neg herr] at h
+      simp only at h
+      simp only [lastSentBlockAndRetry, herr, if_false] at h
+      by_cases hge : r.to_ ≥ lastProcessed l2
+      · rw [if_pos hge] at h; cases h
+      rw [if_neg hge] at h
+      have hwf : WFp ({
+          from_ := r.to_ + 1, to_ := lastProcessed l2, bridges := bridgesIn l2 (r.to_ + 1) (lastProcessed l2),
+          claims := claimsIn l2 (r.to_ + 1) (lastProcessed l2), fep := true,
+          retry := (decide (0 > 0) && (some r).isSome) } : Params) :=
+        ⟨by simp only; omega, bridgesIn_inRange l2 hw _ _, claimsIn_inRange l2 hw _ _⟩
+      obtain ⟨q, hq, hcut, hq1, hq2⟩ := limit_cut size cfg.maxSize _ hwf
+      rw [hq] at h
+      simp only at h
+      have qfrom : q.from_ = r.to_ + 1 := by rw [hcut]; rfl
+      have hlpi : lastProven cfg.start q.from_ (some r) + 1 = q.from_ := by
+        unfold lastProven
+        have : ¬ r.to_ < cfg.start := by rw [hm.to_]; omega
+        simp only [qfrom, Nat.add_one_ne_zero, if_false, this, decide_false, Bool.false_eq_true, Nat.add_sub_cancel]
+      rw [hlpi] at h
+      have hq' : { q with from_ := q.from_ } = q := rfl
+      rw [hq', ← hlast] at h
+      simp only at hq1 hq2
+      refine proveAndBuild_spec cfg l2 hw loc agg hs hl hfb q 0 prover ?_ (by rw [qfrom]; omega) hq2 ?_ ?_ c r' tb h
+      · unfold FromOK; rw [hlast]; simp only [herr, if_false]; exact qfrom
+      · have := congrArg Params.bridges hcut
+        simp only [cutTo] at this
+        rw [this, qfrom]; exact bridgesIn_narrow l2 hw _ _ _ hq2
+      · have := congrArg Params.claims hcut
+        simp only [cutTo] at this
+        rw [this, qfrom]; exact claimsIn_narrow l2 hw _ _ _ hq2
+  | none =>
+    rw [hlast] at h
+    simp only [lastSentBlockAndRetry] at h
+    by_cases hge : cfg.start ≥ lastProcessed l2
+    · simp only [hge, if_true] at h; cases h
+    simp only [hge, if_false] at h
+    have hwf : WFp ({
+        from_ := cfg.start + 1, to_ := lastProcessed l2, bridges := bridgesIn l2 (cfg.start + 1) (lastProcessed l2),
+        claims := claimsIn l2 (cfg.start + 1) (lastProcessed l2), fep := true,
+        retry := (decide (0 > 0) && (none : Option Row).isSome) } : Params) :=
+      ⟨by simp only; omega, bridgesIn_inRange l2 hw _ _, claimsIn_inRange l2 hw _ _⟩
+    obtain ⟨q, hq, hcut, hq1, hq2⟩ := limit_cut size cfg.maxSize _ hwf
+    simp only [Nat.lt_irrefl, decide_false, Bool.false_and] at hq h
+    simp only [hq] at h
+    have qfrom : q.from_ = cfg.start + 1 := by rw [hcut]; rfl
+    have hlpi : lastProven cfg.start q.from_ none + 1 = q.from_ := by
+      unfold lastProven
+      simp only [qfrom, Nat.add_one_ne_zero, if_false, Bool.false_eq_true, Nat.add_sub_cancel, Nat.lt_irrefl]
+    rw [hlpi] at h
+    have hq' : { q with from_ := q.from_ } = q := rfl
+    rw [hq', ← hlast] at h
+    simp only at hq1 hq2
+    refine proveAndBuild_spec cfg l2 hw loc agg hs hl hfb q 0 prover ?_ (by rw [qfrom]; omega) hq2 ?_ ?_ c r' tb h
+    · unfold FromOK; rw [hlast]; exact qfrom
+    · have := congrArg Params.bridges hcut
+      simp only [cutTo] at this
+      rw [this, qfrom]; exact bridgesIn_narrow l2 hw _ _ _ hq2
+    · have := congrArg Params.claims hcut
+      simp only [cutTo] at this
+      rw [this, qfrom]; exact claimsIn_narrow l2 hw _ _ _ hq2
+
+theorem expect_from_ge (cfg : Cfg) (agg : List ACert) (hge : ∀ c ∈ agg, cfg.start + 1 ≤ c.from_)
+    (hft : ∀ i (h : i < agg.length), (agg[i]).from_ ≤ (agg[i]).to_) : cfg.start + 1 ≤ (expect cfg agg).2.2 := by
+  unfold expect
+  cases h : lastSettled agg with
+  | none => simp
+  | some p =>
+    simp only
+    have hp := mem_lastSettled agg p h
+    obtain ⟨i, hi, e⟩ := List.getElem_of_mem hp
+    have h1 := hge p hp
+    have h2 := hft i hi
+    rw [e] at h2
+    omega
+
+theorem sendCore_inv (s : Sys) (hi : Inv s) (hup : s.up = true) (b : Build) (crash : Bool)
+    (hspec : ∀ c retry tb, b = .cert c retry tb → BuildOK s.cfg s.l2 s.loc s.agg c tb) :
+    Inv (sendCore s b crash).1 := by
+  unfold sendCore
+  cases b with
   | none => exact hi
   | err => exact hi
   | cert c retry tb =>
@@ -956,8 +1181,7 @@ theorem send_inv (size : Params → Nat) (s : Sys) (hi : Inv s) (hup : s.up = tr
     rw [if_neg hf]
     have hsync := hi.syncUp hup
     have hlast := inv_lastOK s hi
-    obtain ⟨b1, b2, b3, b4, b5, b6, b7, b8, b9⟩ :=
-      build_spec size s.cfg s.l2 hi.l2wf s.loc s.agg hsync hlast (inv_fallback s hi) c retry tb hb
+    obtain ⟨b1, b2, b3, b4, b5, b6, b7, b8, b9⟩ := hspec c retry tb rfl
     have hcnts : ∀ x ∈ s.agg ++ [{ c with id := s.agg.length + 1 }], CountOK s.l2 x := by
       intro x hx
       rcases List.mem_append.mp hx with h | h
@@ -970,6 +1194,14 @@ theorem send_inv (size : Params → Nat) (s : Sys) (hi : Inv s) (hup : s.up = tr
         simp only
         rw [b7, b5, e1]
         exact newLER_count s.l2 hi.l2sorted hi.deposits c.from_ c.to_ e2 (by omega)
+    have hfrom : ∀ x ∈ s.agg ++ [{ c with id := s.agg.length + 1 }], s.cfg.start + 1 ≤ x.from_ := by
+      intro x hx
+      rcases List.mem_append.mp hx with h | h
+      · exact hi.fromGe x h
+      · rw [List.mem_singleton.mp h]
+        simp only
+        have := expect_from_ge s.cfg s.agg hi.fromGe (fun i hi' => (hi.chain i hi').2)
+        rw [← b1] at this; exact this
     have hcont : ∀ x ∈ s.agg ++ [{ c with id := s.agg.length + 1 }], ContentOK s.l2 x := by
       intro x hx
       rcases List.mem_append.mp hx with h | h
@@ -1002,7 +1234,7 @@ theorem send_inv (size : Params → Nat) (s : Sys) (hi : Inv s) (hup : s.up = tr
     by_cases hcr : crash = true
     · -- the process dies between the submission and the local write
       rw [if_pos hcr]
-      refine ⟨hi.l2wf, g1, g2, g3, hi.sorted, hrowsOld, fun h => by simp at h, ?_, hi.l2sorted, hcont, hi.startOK, hi.deposits, hcnts⟩
+      refine ⟨hi.l2wf, g1, g2, g3, hi.sorted, hrowsOld, fun h => by simp at h, ?_, hi.l2sorted, hcont, hi.startOK, hi.deposits, hcnts, hfrom⟩
       intro _
       unfold SyncDown
       simp only
@@ -1021,7 +1253,7 @@ theorem send_inv (size : Params → Nat) (s : Sys) (hi : Inv s) (hup : s.up = tr
           exact ⟨pre, x, _, by rw [hpre, List.append_assoc]; rfl, hm, hst, hxc⟩
     · rw [if_neg hcr]
       -- the new record is the highest one
-      have hle : ∀ x ∈ s.loc, x.height ≤ (rowOfCert { c with id := s.agg.length + 1 } retry tb).height := by
+      have hle : ∀ x ∈ s.loc, x.height ≤ (rowOfCert { c with id := s.agg.length + 1 } retry tb s.cfg.fep).height := by
         intro x hx
         simp only [rowOfCert]
         cases hl : lastRow s.loc with
@@ -1044,7 +1276,7 @@ theorem send_inv (size : Params → Nat) (s : Sys) (hi : Inv s) (hup : s.up = tr
             rw [hm.height] at h1
             omega
       refine ⟨hi.l2wf, g1, g2, g3, saveRow_sorted _ _ hi.sorted, ?_, ?_, fun h => by simp [hup] at h,
-        hi.l2sorted, hcont, hi.startOK, hi.deposits, hcnts⟩
+        hi.l2sorted, hcont, hi.startOK, hi.deposits, hcnts, hfrom⟩
       · intro r hr
         rcases mem_saveRow _ _ _ hr with e | hr
         · subst e
@@ -1057,6 +1289,32 @@ theorem send_inv (size : Params → Nat) (s : Sys) (hi : Inv s) (hup : s.up = tr
         rw [saveRow_last _ _ hle]
         simp only [List.getLast?_append, List.getLast?_singleton, Option.some_or]
         exact ⟨rfl, rfl, rfl, b3.symm, rfl, Or.inl rfl, Or.inl (by simp only [rowOfCert]; exact b8.symm)⟩
+
+theorem inv_lastFacts (s : Sys) (hi : Inv s) : LastFacts s.cfg s.l2 s.loc s.agg := by
+  intro r x _ hg _
+  have hx : x ∈ s.agg := List.mem_of_getLast? hg
+  obtain ⟨i, hi', e⟩ := List.getElem_of_mem hx
+  have h1 := (hi.chain i hi').2
+  rw [e] at h1
+  exact ⟨h1, (hi.content x hx).1, hi.fromGe x hx⟩
+
+theorem buildAny_spec (size : Params → Nat) (s : Sys) (hi : Inv s) (hup : s.up = true) (c : ACert) (retry tb : Nat)
+    (h : (buildAny size s).1 = .cert c retry tb) : BuildOK s.cfg s.l2 s.loc s.agg c tb := by
+  have hsync := hi.syncUp hup
+  have hlast := inv_lastOK s hi
+  unfold buildAny at h
+  by_cases hf : s.cfg.fep = true
+  · rw [if_pos hf] at h
+    exact buildFEP_spec size s.cfg s.l2 hi.l2wf s.loc s.agg hsync hlast (inv_fallback s hi) (inv_lastFacts s hi) s.prover
+      c retry tb h
+  · rw [if_neg hf] at h
+    exact build_spec size s.cfg s.l2 hi.l2wf s.loc s.agg hsync hlast (inv_fallback s hi) c retry tb h
+
+theorem send_inv (size : Params → Nat) (s : Sys) (hi : Inv s) (hup : s.up = true) (crash : Bool) :
+    Inv (send size s crash).1 := by
+  unfold send
+  have hi' : Inv { s with prover := (buildAny size s).2 } := hi.of_eq rfl rfl rfl rfl rfl
+  exact sendCore_inv _ hi' hup _ crash (fun c retry tb hb => buildAny_spec size s hi hup c retry tb hb)
 
 theorem tick_inv (size : Params → Nat) (s : Sys) (hi : Inv s) (epoch crash : Bool) :
     Inv (tick size s epoch crash).1 := by
@@ -1130,8 +1388,8 @@ theorem move_inv (s : Sys) (hi : Inv s) (id : Nat) (st : St) : Inv { s with agg 
     have : (s.agg.take i)[j] = s.agg[j] := by simp
     rw [← e, this]
     exact mv_closed _ _ _ (hi.closedPrefix j hj2 (by omega))
-  refine ⟨hi.l2wf, ?_, ?_, ?_, hi.sorted, ?_, ?_, ?_, hi.l2sorted, ?_, hi.startOK, hi.deposits, ?_⟩
-  rotate_right 2
+  refine ⟨hi.l2wf, ?_, ?_, ?_, hi.sorted, ?_, ?_, ?_, hi.l2sorted, ?_, hi.startOK, hi.deposits, ?_, ?_⟩
+  rotate_right 3
   · intro c hc
     obtain ⟨c0, hc0, e⟩ := List.mem_map.mp hc
     subst e
@@ -1143,6 +1401,13 @@ theorem move_inv (s : Sys) (hi : Inv s) (id : Nat) (st : St) : Inv { s with agg 
     obtain ⟨c0, hc0, e⟩ := List.mem_map.mp hc
     subst e
     have := hi.counts c0 hc0
+    unfold mv; split
+    · exact this
+    · exact this
+  · intro c hc
+    obtain ⟨c0, hc0, e⟩ := List.mem_map.mp hc
+    subst e
+    have := hi.fromGe c0 hc0
     unfold mv; split
     · exact this
     · exact this
@@ -1262,7 +1527,7 @@ theorem lastOf (agg : List ACert) : lastOfPS (lastSettled agg) (lastPending agg)
 
 theorem inv_set_up (s : Sys) (hi : Inv s) (h : SyncUp s.loc s.agg) : Inv { s with up := true } :=
   ⟨hi.l2wf, hi.ids, hi.closedPrefix, hi.chain, hi.sorted, hi.rows, fun _ => h, fun hu => by simp at hu,
-    hi.l2sorted, hi.content, hi.startOK, hi.deposits, hi.counts⟩
+    hi.l2sorted, hi.content, hi.startOK, hi.deposits, hi.counts, hi.fromGe⟩
 
 theorem mem_of_lastRow (loc : List Row) (r : Row) (h : lastRow loc = some r) : r ∈ loc :=
   List.mem_of_getLast? h
@@ -1360,7 +1625,7 @@ theorem restart_inv (s : Sys) (hi : Inv s) : Inv (restart s).1 := by
           have := hle l hl
           simp only [rowOfHeader]; omega
       refine ⟨h1.l2wf, h1.ids, h1.closedPrefix, h1.chain, saveRow_sorted _ _ h1.sorted, ?_, ?_,
-        fun hu => by simp at hu, h1.l2sorted, h1.content, h1.startOK, h1.deposits, h1.counts⟩
+        fun hu => by simp at hu, h1.l2sorted, h1.content, h1.startOK, h1.deposits, h1.counts, h1.fromGe⟩
       · intro r hr
         rcases mem_saveRow _ _ _ hr with e | hr
         · subst e; exact ⟨c, hcid, hrow _⟩
@@ -1412,7 +1677,7 @@ theorem step_inv (size : Params → Nat) (s : Sys) (hi : Inv s) (op : Op) (hop :
         List.isEmpty_iff] at hop
       obtain ⟨⟨⟨⟨hn, hbb⟩, hcb⟩, hst⟩, hids⟩ := hop
       refine ⟨?_, hi.ids, hi.closedPrefix, hi.chain, hi.sorted, hi.rows, hi.syncUp, hi.syncDown, ?_, ?_,
-        ?_, ?_, ?_⟩
+        ?_, ?_, ?_, hi.fromGe⟩
       · intro x hx
         simp only at hx
         rcases List.mem_append.mp hx with h | h
@@ -1452,16 +1717,17 @@ theorem step_inv (size : Params → Nat) (s : Sys) (hi : Inv s) (op : Op) (hop :
   | failHdr => exact hi.of_eq rfl rfl rfl rfl rfl
   | failSub => exact hi.of_eq rfl rfl rfl rfl rfl
   | failRec => exact hi.of_eq rfl rfl rfl rfl rfl
+  | prover p => exact hi.of_eq rfl rfl rfl rfl rfl
   | crash =>
     refine ⟨hi.l2wf, hi.ids, hi.closedPrefix, hi.chain, hi.sorted, hi.rows, fun h => by simp [step] at h, ?_,
-      hi.l2sorted, hi.content, hi.startOK, hi.deposits, hi.counts⟩
+      hi.l2sorted, hi.content, hi.startOK, hi.deposits, hi.counts, hi.fromGe⟩
     intro _
     by_cases hu : s.up = true
     · exact syncDown_of_up _ _ (hi.syncUp hu)
     · exact hi.syncDown (by simpa using hu)
   | losedb =>
     refine ⟨hi.l2wf, hi.ids, hi.closedPrefix, hi.chain, ?_, ?_, fun h => by simp [step] at h, ?_,
-      hi.l2sorted, hi.content, hi.startOK, hi.deposits, hi.counts⟩
+      hi.l2sorted, hi.content, hi.startOK, hi.deposits, hi.counts, hi.fromGe⟩
     · simp [step]
     · intro r hr; simp [step] at hr
     · intro _; exact Or.inl rfl
